@@ -46,7 +46,7 @@ def boundary_configs(strength):
         ("tet/P1-bary", "tet", ("P-bary", 1, {}), None, ("P-bary", 1, {}), ["sl"]),
         ("tet/DUAL0", "tet", ("DUAL", 0, {}), None, ("DUAL", 0, {}), ["sl", "dl"]),
     ]
-    if strength == "thorough":
+    if strength in ("thorough", "escalated"):
         cfgs += [
             ("cube12/P1seg2", "cube12", ("P", 1, {"segments": [2], "include_boundary_dofs": True}), None,
              ("P", 1, {"segments": [2], "include_boundary_dofs": True}), ["sl", "hyp"]),
@@ -61,8 +61,8 @@ def boundary_configs(strength):
 
 def wavenumbers(op, strength="thorough"):
     if op in ("efield", "mfield"):
-        return [1.25, 0.75 + 0.5j] if strength == "thorough" else [0.75 + 0.5j]
-    if strength != "thorough":
+        return [1.25, 0.75 + 0.5j] if strength != "quick" else [0.75 + 0.5j]
+    if strength == "quick":
         return [None, 1.0 + 0.5j, ("mod", 0.75)] if op in ("sl", "hyp") else [None, 1.0 + 0.5j]
     if op == "adl":
         return [None, 1.0 + 0.5j, ("mod", 0.75)]
